@@ -63,6 +63,10 @@ class BitBuffer:
         if self._type is None or self._type.size is None:
             raise ValueError("Invalid state")
 
+        if data < 0 or data >> bits:
+            # Like an integer that does not fit its type: the neighbouring bit fields must not be touched
+            raise OverflowError(f"Value {int(data):#x} does not fit in a bit field of {bits} bits")
+
         if self._little:
             self._buffer |= data << (self._type.size * 8 - self._remaining)
         else:
